@@ -26,21 +26,16 @@ Section Proofs.
         (s_coords, FMat (len (c_shape c)) (c_coords c))].
   Proof. reflexivity. Qed.
 
-  (* every GCXS-family class (isinstance(matrix, GCXS)) writes indices and indptr; compressed_axes only when not None *)
-  Lemma save_gcxs_axes (k : klass) (g : gcxs V) (ca : list Z) : k <> KCOO -> g_axes g = Some ca ->
-    save_members V (AGcxs k g) =
-    Ok [(s_data, FData (g_data g)); (s_shape, FInts (g_shape g)); (s_fill, FScalar (g_fill g));
-        (s_indices, FInts (g_indices g)); (s_indptr, FInts (g_indptr g)); (s_axes, FInts ca)].
-  Proof.
-    intros Hk E. destruct g as [sh ax d ind ptr f]; cbn in E; subst ax. destruct k; [congruence | | |]; reflexivity.
-  Qed.
+  (* every GCXS-family class (isinstance(matrix, GCXS)) writes indices, indptr and compressed_axes; a None
+     compressed_axes is written as the empty array *)
+  Definition axes_member (a : option (list Z)) : list Z := match a with Some ca => ca | None => [] end.
 
-  Lemma save_gcxs_noaxes (k : klass) (g : gcxs V) : k <> KCOO -> g_axes g = None ->
+  Lemma save_gcxs (k : klass) (g : gcxs V) : k <> KCOO ->
     save_members V (AGcxs k g) =
     Ok [(s_data, FData (g_data g)); (s_shape, FInts (g_shape g)); (s_fill, FScalar (g_fill g));
-        (s_indices, FInts (g_indices g)); (s_indptr, FInts (g_indptr g))].
+        (s_indices, FInts (g_indices g)); (s_indptr, FInts (g_indptr g)); (s_axes, FInts (axes_member (g_axes g)))].
   Proof.
-    intros Hk E. destruct g as [sh ax d ind ptr f]; cbn in E; subst ax. destruct k; [congruence | | |]; reflexivity.
+    intros Hk. destruct g as [sh ax d ind ptr f]. destruct k; [congruence | | |]; destruct ax; reflexivity.
   Qed.
 
   (* ------------------------------------------------------------------ what load_npz makes of complete member sets *)
@@ -49,17 +44,21 @@ Section Proofs.
     (c <- coo_ctor V true false sh r cols d f ;; Ok (ACoo c)).
   Proof. reflexivity. Qed.
 
-  Lemma load_gcxs_members d sh f ind ptr ca :
+  Lemma load_gcxs_members d sh f ind ptr a ca :
     load_members V [(s_data, FData d); (s_shape, FInts sh); (s_fill, FScalar f);
-                    (s_indices, FInts ind); (s_indptr, FInts ptr); (s_axes, FInts ca)] =
-    (g <- gcxs_ctor V sh (Some ca) d ind ptr f ;; Ok (AGcxs KGCXS g)).
+                    (s_indices, FInts ind); (s_indptr, FInts ptr); (s_axes, FInts (a :: ca))] =
+    (g <- gcxs_ctor V sh (Some (a :: ca)) d ind ptr f ;; Ok (AGcxs KGCXS g)).
   Proof. reflexivity. Qed.
 
-  (* no compressed_axes member: the optional read yields None *)
+  (* the empty compressed_axes member is mapped back to None *)
   Lemma load_gcxs_members_noaxes d sh f ind ptr :
     load_members V [(s_data, FData d); (s_shape, FInts sh); (s_fill, FScalar f);
-                    (s_indices, FInts ind); (s_indptr, FInts ptr)] =
+                    (s_indices, FInts ind); (s_indptr, FInts ptr); (s_axes, FInts [])] =
     (g <- gcxs_ctor V sh None d ind ptr f ;; Ok (AGcxs KGCXS g)).
+  Proof. reflexivity. Qed.
+
+  Lemma load_base_members d sh f :
+    load_members V [(s_data, FData d); (s_shape, FInts sh); (s_fill, FScalar f)] = Raise RuntimeError.
   Proof. reflexivity. Qed.
 
   (* ------------------------------------------------------------------ constructors on well-formed input *)
@@ -110,14 +109,15 @@ Section Proofs.
     - rewrite save_coo. cbn [bind]. rewrite load_coo_members.
       rewrite coo_ctor_loadpath by exact Hwf. reflexivity.
     - cbn [wf] in Hwf. pose proof (gcxs_wf_class _ _ Hwf) as Hk.
-      destruct (g_axes g) as [ca |] eqn:Eax.
-      + rewrite (save_gcxs_axes k g ca Hk Eax). cbn [bind]. rewrite load_gcxs_members.
-        unfold gcxs_wf in Hwf. rewrite Eax in Hwf. apply andb_prop in Hwf as [Hwf _].
+      rewrite (save_gcxs k g Hk). cbn [bind].
+      destruct g as [sh ax d ind ptr f]. cbn [g_shape g_axes g_data g_indices g_indptr g_fill] in *.
+      destruct ax as [ca |]; cbn [axes_member].
+      + unfold gcxs_wf in Hwf. cbn [g_axes g_shape] in Hwf. apply andb_prop in Hwf as [Hwf _].
         apply andb_prop in Hwf as [Hnd Hax].
-        rewrite (gcxs_ctor_loadpath _ _ _ _ _ _ Hnd Hax). cbn [bind as_saved].
-        destruct g; cbn in *; now subst.
-      + rewrite (save_gcxs_noaxes k g Hk Eax). cbn [bind]. rewrite load_gcxs_members_noaxes, gcxs_ctor_noaxes.
-        cbn [bind as_saved]. destruct g; cbn in *; now subst.
+        destruct ca as [| a ca].
+        * exfalso. unfold axes_ok in Hax. cbn in Hax. rewrite !andb_false_r in Hax. discriminate.
+        * rewrite load_gcxs_members, (gcxs_ctor_loadpath _ _ _ _ _ _ Hnd Hax). reflexivity.
+      + rewrite load_gcxs_members_noaxes, gcxs_ctor_noaxes. reflexivity.
   Qed.
 
   (* exact classes come back as themselves *)
@@ -142,25 +142,20 @@ Section Proofs.
     exfalso; destruct H as [n [Hin Hk]]; cbn in Hin;
     repeat (destruct Hin as [<- | Hin]; [congruence |]); exact Hin.
 
-  Lemma npz_missing_member_partial_proof (x : arr) (ms : members) (keep : string -> bool) :
+  Lemma npz_missing_member_rejected_proof (x : arr) (ms : members) (keep : string -> bool) :
     class_ok V x = true ->
     save_members V x = Ok ms ->
     (exists n, In n (map fst ms) /\ keep n = false) ->
-    mm_axes_kept V x keep = true ->
     exists e, load_members V (restrict keep ms) = Raise e.
   Proof.
     destruct x as [c | k g]; intros Hcls.
-    - clear Hcls. rewrite save_coo. intros E H _. injection E as <-.
+    - clear Hcls. rewrite save_coo. intros E H. injection E as <-.
       unfold restrict. cbn [filter fst].
       split_keep keep; first [ eexists; reflexivity | absurd_all_kept H ].
     - assert (Hk' : k <> KCOO) by (intros ->; discriminate Hcls). clear Hcls.
-      cbn [mm_axes_kept]. destruct (g_axes g) as [ca |] eqn:Eax.
-      + rewrite (save_gcxs_axes k g ca Hk' Eax). intros E H Hax. injection E as <-.
-        unfold restrict. cbn [filter fst]. rewrite Hax.
-        split_keep keep; first [ eexists; reflexivity | absurd_all_kept H ].
-      + rewrite (save_gcxs_noaxes k g Hk' Eax). intros E H _. injection E as <-.
-        unfold restrict. cbn [filter fst].
-        split_keep keep; first [ eexists; reflexivity | absurd_all_kept H ].
+      rewrite (save_gcxs k g Hk'). intros E H. injection E as <-.
+      unfold restrict. cbn [filter fst].
+      split_keep keep; first [ eexists; reflexivity | absurd_all_kept H ].
   Qed.
 
   (* ------------------------------------------------------------------ pickle *)
@@ -253,18 +248,6 @@ Lemma npz_roundtrip_nonvacuous :
   /\ (ms <- save_members Z w_csr ;; load_members Z ms)
      = Ok (AGcxs KGCXS (mkGCXS [2; 3] (Some [0]) [5; 6] [1; 2] [0; 1; 2] 0)).
 Proof. split; [repeat constructor | reflexivity]. Qed.
-
-(* a file of the 3-d GCXS from which only the compressed_axes member was removed loads, as a GCXS whose
-   compressed_axes is None: not an exception, and not the saved array *)
-Lemma npz_missing_member_refuted_proof :
-  exists (x : arr Z) (ms : members Z) (keep : string -> bool) (y : arr Z),
-    wf Z x = true /\ save_members Z x = Ok ms /\ (exists n, In n (map fst ms) /\ keep n = false) /\
-    load_members Z (restrict Z keep ms) = Ok y /\ y <> as_saved Z x.
-Proof.
-  exists w_gcxs_3d. eexists. exists (fun n => negb (String.eqb n s_axes)). eexists.
-  split; [reflexivity |]. split; [reflexivity |]. split; [exists s_axes; split; [cbn; tauto | reflexivity] |].
-  split; [reflexivity | discriminate].
-Qed.
 
 (* Numba: an int8-coordinate COO of shape (300,) comes back with shape (44,) *)
 Definition w_nb : coo Z := mkCOO [300] [[0]; [1]] [5; 6] 0.
